@@ -21,7 +21,7 @@ CHECKS = {
     ),
     "C03": dict(
         category="exploration",
-        technique="runtime monitoring: structural invariant walker over every emitted document (re-parsed YAML) of the exploration workload, plus YAML round-trip differential",
+        technique="runtime monitoring: structural invariant walker over every emitted document (re-parsed YAML) of the exploration workload, plus YAML round-trip differential, plus the target file the real oal-cli writes when a target is regenerated (series of programs into one path)",
         text="Every document the pipeline emits for generated programs, accepted mutants and corpus programs is re-parsed and walked by an independent validator: $ref closure, path variables vs required path parameters, response-key domain, operationId uniqueness, YAML round trip.",
         note="Trusted: serde_yaml's parser (YAML 1.2 core schema). Known finding: synthesised operationId collisions.",
         design="5/C03",
@@ -35,7 +35,7 @@ CHECKS = {
     ),
     "C11": dict(
         category="exploration",
-        technique="runtime monitoring: structural invariant walkers over tokenizer and parser outputs (token tiling, values vs slices, tree leaves vs tokens, node span hull) and over every span carried by syntax/compiler errors",
+        technique="runtime monitoring: structural invariant walkers over tokenizer and parser outputs (token tiling, values vs slices, tree leaves vs tokens, node span hull) and over every span carried by syntax/compiler errors; plus a located-error monitor over recorded language-server sessions (the error the library locates must be published for the document of its module with exactly the range of its span in the client's text)",
         text="For every text of the workload the token spans must tile the text outside lexical-error spans, token values must be what their slices denote, the tree's leaves must be the non-trivia tokens of the parsed prefix in order, node spans must be the hull of their leaves, and error spans must lie inside their own module's text on char boundaries.",
         note="Trusted: the walker's own hull computation; tokenizer assumed context-free longest-match for the re-lex check.",
         design="5/C11",
@@ -56,7 +56,7 @@ CHECKS = {
     ),
     "C07": dict(
         category="exploration",
-        technique="runtime monitoring: reference-model monitor for the unifier (hooked InferenceSet::unify vs an independent Robinson unifier, exhaustive over small equation systems, divergence observed as child abort), metamorphic verdict monitor under permutation/renaming, construction-based solvability oracle",
+        technique="runtime monitoring: reference-model monitor for the unifier (hooked InferenceSet::unify vs an independent Robinson unifier, exhaustive over small equation systems, divergence observed as child abort), metamorphic verdict monitor under permutation/renaming, construction-based solvability oracle, exhaustive kind table (typed positions x expressions of every kind against the kinding rule of the position)",
         text="Every single equation over 264 tag terms and every pair over a fixed subset is fed to the real unifier and compared with a reference unifier (verdict, solution, most generality, order invariance); generated programs and mutants are re-checked under statement permutations and injective respellings; well-kinded programs must be accepted and 16 kinds of unsolvable declarations rejected.",
         note="Termination is observed as bounded progress: a diverging reduce is a stack overflow, i.e. a child abort attributed to one system.",
         design="5/C07",
@@ -70,7 +70,7 @@ CHECKS = {
     ),
     "C10": dict(
         category="exploration",
-        technique="runtime monitoring: offline trace checker over the recorded call log (is_valid/load/parse/compile with logical sequence numbers) of a recording Loader delegating to the real parse/compile, against the generator's import graph; exhaustive over small graphs",
+        technique="runtime monitoring: offline trace checker over the recorded call log (is_valid/load/parse/compile with logical sequence numbers) of a recording Loader delegating to the real parse/compile, against the generator's import graph (flat and two-directory layouts); exhaustive over small graphs; plus a located-error monitor over recorded language-server sessions (the error the library locates must be published for the document of its module with exactly the range of its span in the client's text)",
         text="All import digraphs on up to 3 (thorough 4) modules and random graphs on up to 8 with aliased spellings, duplicate use lines and missing targets are loaded through a recording in-memory Loader; the log must show each reachable module loaded, parsed and compiled exactly once and after its imports, cycles and missing imports must be the right errors, and permuted/re-spelled use lines must not change the result.",
         note="Module bodies use imported values and functions so a wrong compile order is also observable as a crash or wrong verdict.",
         design="5/C10",
@@ -84,49 +84,49 @@ CHECKS = {
     ),
     "C06": dict(
         category="exploration",
-        technique="runtime monitoring: differential monitor across N fresh oal-cli processes (different hash seeds each) with byte comparison of the target files, and across repeated in-process compilations incl. a second thread",
+        technique="runtime monitoring: differential monitor across N fresh oal-cli processes (different hash seeds each) with byte comparison of the target files (half of the processes started from another working directory; near-colliding paths and operation ids), and across repeated in-process compilations incl. a second thread",
         text="Generated programs biased to what can leak map order are compiled by the real CLI in 8 (thorough 32) fresh processes and the YAML bytes compared; in-process, A, B, A and A on a second thread must give identical bytes.",
         note="Byte equality is the oracle; nothing is normalised.",
         design="5/C06",
     ),
     "C13": dict(
         category="exploration",
-        technique="runtime monitoring: differential monitor over three front ends (real oal-cli process, playground entry point, language-server cycle) plus a file-system monitor (bytes/inode/mtime of a sentinel target; strace in the thorough tier) and a stderr report-shape monitor",
+        technique="runtime monitoring: differential monitor over three front ends (real oal-cli process, playground entry point, language-server cycle) plus a file-system monitor (bytes/inode/mtime of a sentinel target; strace in the thorough tier) and a stderr report-shape monitor; options vs configuration file precedence, sessions with two workspace folders; plus a located-error monitor over recorded language-server sessions (the error the library locates must be published for the document of its module with exactly the range of its span in the client's text)",
         text="Workspaces with sources accepted and rejected at each phase (error injected in the main or an imported module), options vs config file, with/without base: exit status, located report, untouched sentinel target on failure, complete target equal to the library output on success, agreement with the playground and with the language server's diagnostics.",
         note="An import cycle has no source position; its report only needs the failure exit and message. Configuration failures need no location.",
         design="5/C13",
     ),
     "C14": dict(
         category="exploration",
-        technique="runtime monitoring: field-wise differential monitor of the merged output against the base (as the tool's model represents it, and raw when the model round-trips it) and against the base-less output; a slice through the real oal-cli -b",
+        technique="runtime monitoring: field-wise differential monitor of the merged output against the base (as the tool's model represents it, and raw when the model round-trips it) and against the base-less output; a slice through the real oal-cli -b regenerating an existing, longer target",
         text="Generated base documents over the OpenAPI object model combined with generated programs: everything outside paths and components.schemas must equal the base, paths and schema components must equal the base-less output up to generated names; the merged document is also walked by C03's validator.",
         note="Bases are closed w.r.t. what survives the merge. openapiv3's model is the trusted representation at level 1.",
         design="5/C14",
     ),
     "C15": dict(
         category="exploration",
-        technique="runtime monitoring: offline comparison of two recorded JSON-RPC sessions of the real oal-lsp (history server vs fresh server handed the final texts), client texts from an independent UTF-16 document model, liveness polling, logical (request/response) synchronisation",
+        technique="runtime monitoring: offline comparison of two recorded JSON-RPC sessions of the real oal-lsp (history server vs fresh server handed the final texts), client texts from an independent UTF-16 document model, liveness polling, logical (request/response) synchronisation; plus a server-independent located-error monitor at every checkpoint",
         text="Random protocol-valid histories of didOpen/didChange/didClose with full and incremental changes at arbitrary UTF-16 ranges, bursts and interleaved requests over a 4-file workspace; at checkpoints the last published diagnostics per URI and the answers to definition/references/prepareRename/rename probes must equal those of a fresh server.",
         note="Files on disk stay fixed during a history. Timing never decides a verdict.",
         design="5/C15",
     ),
     "C17": dict(
         category="exploration",
-        technique="runtime monitoring: reference-model monitor (generator's span and binding tables) over a full position sweep of definition/references requests against the real oal-lsp process",
+        technique="runtime monitoring: reference-model monitor (generator's span and binding tables) over a full position sweep of definition/references requests against the real oal-lsp process, half of the sessions after unsaved drafts of every module were opened, queried and closed",
         text="For generated multi-module workspaces every UTF-16 position of every line is sent as textDocument/definition and textDocument/references to the real server; answers must be exactly the binder location / the set of bound uses, and empty off identifiers.",
         note="Lenient zones where the statement does not decide: right after an identifier, qualifier and dot, binder tokens.",
         design="5/C17",
     ),
     "C18": dict(
         category="exploration",
-        technique="runtime monitoring: end-to-end monitor of prepareRename/rename against the real oal-lsp with client-side edit application and compile-and-compare of both versions through the real oal-cli; liveness monitor",
+        technique="runtime monitoring: end-to-end monitor of prepareRename/rename against the real oal-lsp with client-side edit application and compile-and-compare of both versions through the real oal-cli; liveness monitor; half of the sessions after unsaved drafts of every module were opened, queried and closed",
         text="At the start and middle of every identifier occurrence (and random positions) of generated workspaces, wherever prepareRename offers a range the identifier is renamed to a fresh name; edits must not overlap and must each replace exactly the old name, the edited sources must compile to the same canonical document, and the server must stay alive.",
         note="For @names the expected document is the original with that component renamed.",
         design="5/C18",
     ),
     "C16": dict(
         category="exploration",
-        technique="runtime monitoring: reference-model monitor over an exhaustively enumerated input space (all texts up to a length bound, all offsets/positions) through the cfg-guarded conversion hooks",
+        technique="runtime monitoring: reference-model monitor over an exhaustively enumerated input space (all texts up to a length bound, all offsets/positions) through the cfg-guarded conversion hooks; plus a located-error monitor over recorded language-server sessions (the error the library locates must be published for the document of its module with exactly the range of its span in the client's text)",
         text="All texts of <=6 (thorough <=8) units over {a, é, €, 😉, LF, CRLF}, every boundary offset, every position in the stated box and every span are checked against an independent reference conversion: exhaustive within the bound.",
         note="Trusted: the reference conversion (encode_utf16 + explicit line table). Lone CR and positions inside a surrogate pair are outside the property.",
         design="5/C16",
